@@ -187,6 +187,14 @@ class DropletBase:
         # create a staticmethod for merging droplet data
         cls._merge_data = staticmethod(cls._make_merge_data())
 
+    def __getstate__(self):
+        return {"data": self.data}
+
+    def __setstate__(self, state):
+        # numpy silently discards item assignments to records that were unpickled, so
+        # droplets sent to other processes must own a fresh, writable copy of the data
+        self.data = state["data"].copy()
+
     def __eq__(self, other):
         if not isinstance(other, self.__class__):
             return NotImplemented
